@@ -1,6 +1,7 @@
 package server
 
 import (
+	"time"
 	"context"
 	"encoding/json"
 	"errors"
@@ -43,6 +44,7 @@ type c15Case struct {
 
 // c15CancelKey: (direct calls) the function that ends the request's context
 type c15CancelKey struct{}
+type c15DeriveKey struct{}
 
 // c15Op is the operation in force while a case runs (one case at a time per process).
 var c15Op string
@@ -153,6 +155,12 @@ func c15Executor(b *barrier, mw string, msgMW ...string) *kmipserver.BatchExecut
 				cp.BatchItem = append([]kmip.RequestBatchItem{}, rm.BatchItem...)
 				return next(ctx, &cp)
 			})
+		case "derive":
+			exec.Use(func(next kmipserver.Next, ctx context.Context, rm *kmip.RequestMessage) (*kmip.ResponseMessage, error) {
+				ctx, cancel := context.WithTimeout(context.WithValue(ctx, c15DeriveKey{}, "message"), time.Hour)
+				defer cancel()
+				return next(ctx, rm)
+			})
 		case "chunk":
 			exec.Use(func(next kmipserver.Next, ctx context.Context, rm *kmip.RequestMessage) (*kmip.ResponseMessage, error) {
 				if len(rm.BatchItem) < 2 || int(rm.Header.BatchCount) != len(rm.BatchItem) || rm.Header.ProtocolVersion.ProtocolVersionMajor != 1 ||
@@ -195,6 +203,13 @@ func c15Executor(b *barrier, mw string, msgMW ...string) *kmipserver.BatchExecut
 	switch mw {
 	case "pass":
 		exec.BatchItemUse(func(next kmipserver.BatchItemNext, ctx context.Context, bi *kmip.RequestBatchItem) (*kmip.ResponseBatchItem, error) {
+			return next(ctx, bi)
+		})
+	case "derive":
+		// hands a context derived from the one it received to its continuation (a value, a deadline): the usual way
+		exec.BatchItemUse(func(next kmipserver.BatchItemNext, ctx context.Context, bi *kmip.RequestBatchItem) (*kmip.ResponseBatchItem, error) {
+			ctx, cancel := context.WithTimeout(context.WithValue(ctx, c15DeriveKey{}, "item"), time.Hour)
+			defer cancel()
 			return next(ctx, bi)
 		})
 	case "absorb":
@@ -623,8 +638,8 @@ func TestC15Placeholder(t *testing.T) {
 	}
 	actions := []string{"set", "set", "read", "read", "readorid", "readorid", "readexplicit", "nested", "clear", "setempty", "fail", "setfail", "failonce", "endctx", "pending"}
 	rapid.Check(t, func(rt *rapid.T) {
-		c := c15Case{Direct: rapid.Bool().Draw(rt, "direct"), ItemMiddleware: rapid.SampledFrom([]string{"", "", "pass", "absorb", "retry"}).Draw(rt, "item-middleware"),
-			MessageMiddleware: rapid.SampledFrom([]string{"", "", "copy", "chunk"}).Draw(rt, "message-middleware"),
+		c := c15Case{Direct: rapid.Bool().Draw(rt, "direct"), ItemMiddleware: rapid.SampledFrom([]string{"", "", "pass", "derive", "absorb", "retry"}).Draw(rt, "item-middleware"),
+			MessageMiddleware: rapid.SampledFrom([]string{"", "", "copy", "chunk", "derive"}).Draw(rt, "message-middleware"),
 			Operation:         rapid.SampledFrom([]string{"", "", "", "destroy", "destroy", "archive", "recover", "revoke"}).Draw(rt, "operation")}
 		nconn := rapid.IntRange(1, 4).Draw(rt, "connections")
 		if c.Direct {
